@@ -299,6 +299,10 @@ class Future(BaseFuture):
             other_tmp_register = other_operand
             load_commands += other.get_load_commands(other_tmp_register)
             store_commands += other._get_store_commands(other_tmp_register)
+        elif isinstance(other, RegFuture):
+            # NOTE: a RegFuture is also an `int`, so this check must come before the int case
+            assert other.reg is not None
+            other_operand = other.reg
         elif isinstance(other, operand.Register) or isinstance(other, int):
             other_operand = other
         else:
@@ -474,6 +478,10 @@ class RegFuture(BaseFuture):
             other_tmp_register = other_operand
             load_commands += other.get_load_commands(other_tmp_register)
             store_commands += other._get_store_commands(other_tmp_register)
+        elif isinstance(other, RegFuture):
+            # NOTE: a RegFuture is also an `int`, so this check must come before the int case
+            assert other.reg is not None
+            other_operand = other.reg
         elif isinstance(other, operand.Register) or isinstance(other, int):
             other_operand = other
         else:
